@@ -101,12 +101,11 @@ Section D.
   Lemma enqueue_login_head d d' :
     enqueue_login d = Ok d' ->
     exists s, assoc_script PM_LOG_IN (dv_scripts d) = Some s /\
-      dv_acts d' = create_action s PM_LOG_IN None 0 false false false None
-                   :: (match dv_acts d with [] => [] | h :: r => rewind_action h :: r end)
-      /\ dv_cstate d' = dv_cstate d /\ dv_logged_in d' = dv_logged_in d.
+      d' = set_acts (create_action s PM_LOG_IN None 0 false false false None
+                   :: (match dv_acts d with [] => [] | h :: r => rewind_action h :: r end)) d.
   Proof.
     unfold enqueue_login. destruct (assoc_script PM_LOG_IN (dv_scripts d)) as [s|]; [|discriminate].
-    intros H; inversion H; subst. exists s. cbn. auto.
+    intros H; inversion H; subst. exists s. auto.
   Qed.
 
   Lemma disconnect_spec d d' evs :
@@ -117,8 +116,8 @@ Section D.
     dv_retry_count d' = dv_retry_count d /\ dv_last_retry d' = dv_last_retry d.
   Proof.
     unfold disconnect. intros H. inversion H; subst; clear H. cbn.
-    destruct (dv_acts d) as [|h r]; cbn; [intuition|].
-    destruct (Z.eqb (a_com h) PM_LOG_IN); cbn; intuition.
+    destruct (dv_acts d) as [|h r] eqn:Ea; cbn; rewrite ?Ea; [intuition|].
+    destruct (Z.eqb (a_com h) PM_LOG_IN); cbn; rewrite ?Ea; intuition.
   Qed.
 
   (* a connect attempt stamps the time, counts the attempt, and on success makes the login action the head *)
@@ -131,11 +130,15 @@ Section D.
     unfold connect. destruct (dv_has_fd d || negb (Z.eqb (dv_cstate d) DEV_NOT_CONNECTED)) eqn:E0; [discriminate|].
     apply orb_false_iff in E0 as [_ E0]. apply negb_false_iff in E0. apply Z.eqb_eq in E0.
     destruct plans as [|[| |] r].
-    - intros H; inversion H; subst. cbn. repeat split; auto. intros Hc. rewrite E0 in Hc. vm_compute in Hc. discriminate.
+    - intros H; inversion H; subst. cbn. split; [reflexivity|]. split; [reflexivity|].
+      intros Hc. rewrite E0 in Hc. vm_compute in Hc. discriminate.
     - destruct (enqueue_login _) as [d3| | | |] eqn:El; try discriminate.
-      intros H; inversion H; subst. apply enqueue_login_head in El as [s [Es [Ea [Ec Eli]]]].
-      cbn in *. rewrite Ea. repeat split; auto. intros _. eexists _, _. split; [reflexivity|]. split; [reflexivity|exact Eli].
-    - intros H; inversion H; subst. cbn. repeat split; auto. intros Hc. vm_compute in Hc. discriminate.
-    - intros H; inversion H; subst. cbn. repeat split; auto. intros Hc. rewrite E0 in Hc. vm_compute in Hc. discriminate.
+      intros H; inversion H; subst. apply enqueue_login_head in El as [s [Es Ed]]. subst d'.
+      cbn. split; [reflexivity|]. split; [reflexivity|].
+      intros _. eexists _, _. split; [reflexivity|]. split; reflexivity.
+    - intros H; inversion H; subst. cbn. split; [reflexivity|]. split; [reflexivity|].
+      intros Hc. vm_compute in Hc. discriminate.
+    - intros H; inversion H; subst. cbn. split; [reflexivity|]. split; [reflexivity|].
+      intros Hc. rewrite E0 in Hc. vm_compute in Hc. discriminate.
   Qed.
 End D.
